@@ -648,14 +648,23 @@ def generate(rng, prop, tier):
         seen, base = set(), []
         for _ in range(3000):
             c = logical_call(rng, fn, pool, True)
-            cj = json.dumps(dict((k, enc(v)) for k, v in c.items()), sort_keys=True)
+            cc = dict(c)
+            if DFLT.get(fn) is not None and cc.get('y', cc.get('k')) == DFLT[fn]:
+                cc.pop('y', None)
+                cc.pop('k', None)
+            cj = json.dumps(dict((k, enc(v)) for k, v in cc.items()), sort_keys=True)
             if cj not in seen:
                 seen.add(cj)
                 base.append(c)
             if len(base) >= ms + rng.randint(3, 8):
                 break
-        work, fresh = base[:ms], base[ms:]
-        if len(work) == ms and fresh:
+        warm = prop in ('C05', 'C07', 'C01') and cfg['backend'] is not None and rng.chance(0.5)
+        # warm start: the working set is a little larger than the cache (so the archive ends up holding more than
+        # maxsize entries), everything is dumped, memory is emptied and bulk-loaded again: the cache is then
+        # full (or overfull) of entries the eviction bookkeeping has never seen when the newcomers arrive
+        nwork = ms + (rng.randint(0, 2) if warm else 0)
+        work, fresh = base[:nwork], base[nwork:]
+        if len(work) == nwork and fresh:
             ops = []
             for r in range(rng.randint(1, 3)):
                 order = list(work)
@@ -664,6 +673,8 @@ def generate(rng, prop, tier):
                 ops.extend(spell(rng, fn, c) for c in order)
                 if rng.chance(0.3) and order:
                     ops.append(spell(rng, fn, rng.choice(order)))     # one entry gets an extra use
+            if warm:
+                ops.extend([{'op': 'dump'}, {'op': 'clear'}, {'op': 'load'}])
             for c in fresh:
                 ops.append(spell(rng, fn, c))
                 if rng.chance(0.4):
